@@ -20,6 +20,8 @@ package interp
 //@   panics when true
 //@   exits all-deferred-run: callCount == len(f.deferred) && forall(k, 0, len(f.deferred), calledAt(k) == f.deferred[k][0])
 //@   ensures returns-only-if-no-panic-pending: f.recovered == nil
+//@   -- it panics only to re-raise: a panic was recovered in this run, or a deferred call ran
+//@   exits repanic-justified: panicking ==> recoverResult != nil || len(f.deferred) > 0
 //@   canary callCount == len(f.deferred) + 1
 //@   loop 1 index i
 //@   invariant trace-is-prefix: callCount == i && forall(k, 0, i, calledAt(k) == f.deferred[k][0])
